@@ -1495,6 +1495,7 @@ class Stream(AbstractStream):
         elif N_streams == 1:
             if energy_balance:
                 self.copy_like(streams[0])
+                if Q: self.H = self.H + Q
             elif isinstance(self._imol, MaterialIndexer):
                 self._imol.mix_from([streams[0]._imol])
             else:
